@@ -19,7 +19,7 @@
    every seed and every partitioning. *)
 From Coq Require Import List ZArith NArith Bool Permutation.
 From IB Require Import Combiners.Reservoir Proofs.Reservoir Proofs.ReservoirKeyed
-  Proofs.ReservoirProps.
+  Proofs.ReservoirNatural Proofs.ReservoirProps.
 Import ListNotations.
 
 (* ---------- the accumulator invariant is established by create, kept by add_input and merge ---------- *)
@@ -184,6 +184,27 @@ Example c14_reproducible_ex :
   sample_parts 2 42%N [[1; 2; 3]; [4; 5]]%Z = [1; 4]%Z /\
   sample_parts 2 43%N [[1; 2; 3]; [4; 5]]%Z <> [1; 4]%Z.
 Proof. vm_compute. split; [reflexivity|discriminate]. Qed.
+
+(* ---------- the sampler never inspects the elements: relabelling the input relabels the sample.
+   So which positions of which partition are selected depends on (k, seed, shape of the
+   partitioning) only: reproducibility in a strong form - and the reason why the sample changes
+   with the partitioning. ---------- *)
+Theorem c14_selection_ignores_elements :
+  forall (T U : Type) (f : T -> U) (k : nat) (seed : N) (parts : list (list T)),
+    sample_parts k seed (map (map f) parts) = map f (sample_parts k seed parts).
+Proof. exact @sample_parts_natural. Qed.
+
+Example c14_selection_ignores_elements_ex :
+  (* the sample of any two-partition input of shape [3; 2] is (position 0 of part 0, position 0 of
+     part 1) for k = 2, seed 42 *)
+  sample_parts 2 42%N [[(0, 0); (0, 1); (0, 2)]; [(1, 0); (1, 1)]]%nat = [(0, 0); (1, 0)]%nat /\
+  sample_parts 2 42%N (map (map (fun p : nat * nat => (10 * fst p + snd p)%nat))
+                           [[(0, 0); (0, 1); (0, 2)]; [(1, 0); (1, 1)]]%nat) = [0; 10]%nat.
+Proof.
+  assert (E : sample_parts 2 42%N [[(0, 0); (0, 1); (0, 2)]; [(1, 0); (1, 1)]]%nat
+              = [(0, 0); (1, 0)]%nat) by (vm_compute; reflexivity).
+  split; [exact E|]. rewrite c14_selection_ignores_elements, E. reflexivity.
+Qed.
 
 (* ---------- mode stability: REFUTED.  The documented "identical for sequential and parallel
    execution" fails on the faithful model (and on the real code: known finding
